@@ -13,6 +13,8 @@ VARIANTS = [
     {"bond_threshold": 1.0},
     {"radii": "custom", "bond_threshold": 0.8},
     {"radii": "vdw_covalent", "bond_threshold": 0.65, "seed": 11},
+    {"radii": "custom", "bond_threshold": 0.65},
+    {"radii": "custom", "bond_threshold": 0.5, "seed": 5},
 ]
 
 
@@ -23,7 +25,7 @@ def jobs_for(tier):
     for k, (kind, desc) in enumerate(fam):
         vs = [VARIANTS[k % len(VARIANTS)]] if tier == "quick" else [VARIANTS[k % len(VARIANTS)], VARIANTS[(k + 3) % len(VARIANTS)]]
         for params in vs:
-            jobs.append((kind, desc, params, {"rigid": k % 2 == 0, "dims": True, "rerun": False}))
+            jobs.append((kind, desc, params, {"rigid": k % 2 == 0, "dims": True, "rerun": False, "shared_history": k % 3 == 1 or desc.get("ads") == desc.get("el") or kind in ("rsstack", "displaced")}))
     return jobs
 
 
